@@ -85,7 +85,7 @@ pub open spec fn ready_coin(a: AskOrderV1) -> crate::shim::flat::Coin { a.class-
 
 /// role membership, phrased with the trigger the std `contains` specification uses
 pub open spec fn is_member(list: Seq<crate::shim::flat::Addr>, a: crate::shim::flat::Addr) -> bool {
-    exists|i: int| 0 <= i < list.len() && #[trigger] vstd::std_specs::cmp::PartialEqSpec::eq_spec(&list[i], &a)
+    exists|i: int| 0 <= i < list.len() && vstd::std_specs::cmp::PartialEqSpec::eq_spec(&#[trigger] list[i], &a)
 }
 pub open spec fn str_member(list: Seq<String>, a: Seq<char>) -> bool {
     exists|i: int| 0 <= i < list.len() && (#[trigger] list[i])@ == a
